@@ -108,7 +108,7 @@ func libDir() string {
 	libOnce.Do(func() {
 		d, err := os.MkdirTemp("", "verif-racelib-")
 		if err == nil {
-			os.WriteFile(d+"/shm.py", []byte("val = \"init\"\nlst = []\ndct = {}\n"), 0o644)
+			os.WriteFile(d+"/shm.py", []byte("val = \"init0\"\nlst = []\ndct = {}\n"), 0o644)
 			libPath = d
 		}
 	})
